@@ -170,6 +170,82 @@ func c12Aliased(c *wk.Ctx) {
 	}
 }
 
+// c12EnumDisplays: enums in which some values carry a display name and others do not, compared with an enum over
+// the same values whose display names disagree on (or lack) one of them. The comparison walks a Go map, so a verdict
+// that depends on which value it meets first shows up as evaluations that disagree.
+func c12EnumDisplays(c *wk.Ctx) {
+	dvn := func(name string) *schema.DisplayValue {
+		if name == "" {
+			return schema.NewDisplayValue(nil, nil, nil)
+		}
+		return schema.NewDisplayValue(&name, nil, nil)
+	}
+	// per value: the consumer's and the producer's display name ("" = a display value without a name, "-" = nil)
+	type pairing struct {
+		label string
+		names map[string][2]string
+	}
+	disp := func(n string) *schema.DisplayValue {
+		if n == "-" {
+			return nil
+		}
+		return dvn(n)
+	}
+	pairings := []pairing{
+		{"one disagreeing name among unnamed values", map[string][2]string{"a": {"", ""}, "b": {"", ""}, "c": {"", ""}, "d": {"Delta", "Dora"}, "e": {"-", "-"}}},
+		{"one name missing at the producer among unnamed values", map[string][2]string{"a": {"", "-"}, "b": {"-", ""}, "c": {"", ""}, "d": {"Delta", ""}, "e": {"-", "-"}, "f": {"", ""}}},
+		{"one name missing at the consumer among unnamed values", map[string][2]string{"a": {"", ""}, "b": {"-", "-"}, "c": {"", "Charlie"}, "d": {"-", ""}}},
+		{"agreeing names and unnamed values", map[string][2]string{"a": {"", ""}, "b": {"Bravo", "Bravo"}, "c": {"-", ""}, "d": {"Delta", "Delta"}}},
+	}
+	for _, pg := range pairings {
+		for kind := 0; kind < 3; kind++ {
+			build := func(side int) schema.Type {
+				sv := map[string]*schema.DisplayValue{}
+				iv := map[int64]*schema.DisplayValue{}
+				i := int64(0)
+				keys := make([]string, 0, len(pg.names))
+				for k := range pg.names {
+					keys = append(keys, k)
+				}
+				sort.Strings(keys)
+				for _, k := range keys {
+					sv[k] = disp(pg.names[k][side])
+					iv[i*7-3] = disp(pg.names[k][side])
+					i++
+				}
+				switch kind {
+				case 0:
+					return schema.NewStringEnumSchema(sv)
+				case 1:
+					return schema.NewIntEnumSchema(iv, nil)
+				}
+				return schema.NewScopeSchema(schema.NewObjectSchema("E", map[string]*schema.PropertySchema{
+					"e": schema.NewPropertySchema(schema.NewListSchema(schema.NewStringEnumSchema(sv), nil, nil), nil, false, nil, nil, nil, nil, nil)}))
+			}
+			verdicts := map[string]int{}
+			used, arg := build(0), build(1)
+			for rep := 0; rep < 300; rep++ {
+				a, b := used, arg
+				if rep%2 == 0 {
+					a, b = build(0), build(1)
+				}
+				var err error
+				if p, site, msg, _ := wk.Guard(func() { err = a.ValidateCompatibility(b) }); p {
+					c.Violation("C12:panic:ValidateCompatibility:"+site, "ValidateCompatibility panicked on a pair of enums: "+msg, map[string]any{"pairing": pg.label})
+					return
+				}
+				c.Count("probe_evaluations")
+				verdicts[fmt.Sprint(err == nil)]++
+			}
+			c.Eval(wk.Hash64("directed-enum-displays", pg.label, fmt.Sprint(kind)), true)
+			if len(verdicts) > 1 {
+				c.Violation("C12:not-deterministic:ValidateCompatibility", fmt.Sprintf("300 evaluations of ValidateCompatibility on the same pair of enums (%s; %s) disagree: %v accepted/rejected", pg.label, []string{"string enums", "integer enums", "string enums in a list property of a scope"}[kind], verdicts),
+					map[string]any{"pairing": pg.label, "consumer_and_producer_display_names_per_value": fmt.Sprint(pg.names), "verdicts": verdicts})
+			}
+		}
+	}
+}
+
 // c12KeyKinds: maps whose keys are equal numbers of different Go integer types (int(1) beside int64(1)): the
 // operations that normalise keys must give the same answer every time (reject, or always keep the same entry).
 func c12KeyKinds(c *wk.Ctx) {
@@ -369,6 +445,8 @@ func runC12(c *wk.Ctx) {
 		c12AliasedStruct(c)
 		c.Note("directed: one property schema shared by two struct-mapped objects")
 		c12SharedProperty(c)
+		c.Note("directed: enums with display names on some values only")
+		c12EnumDisplays(c)
 	}
 	// "a function of (schema, argument) only" also from the very first evaluations, which fill the lazily built tables
 	// of unit definitions: 8 goroutines use a fresh definition at once, every result is what a twin used by one
